@@ -26,6 +26,7 @@ RULE = ('Hypothesis generates arrays with a distinct value in every (model, aper
 RULE += (' ' + 'Also varied: an older compressed copy <name>.gz next to the SED file being written, error units, second cube with permuted names.')
 RULE += (' ' + 'Aperture axis stored ascending / descending / rotated, cells compared by aperture value.')
 RULE += (' ' + 'A quarter of the cubes hold names longer than 30 characters, several sharing their first 30.')
+RULE += (' ' + 'The cube read back from the file is written out again and the second file examined like the first.')
 ASSUMPTIONS = [
     'values are requested in the unit they were stored in; equality within 1e-13 relative (unit algebra rounds), exact '
     'for convolved-flux tables',
@@ -226,6 +227,10 @@ def run_sed(case, ctx):
 
 # ------------------------------------------------------------------------------------------ cube
 
+def r_order(case):
+    return 'wav' if case['order'] == 'nu' else 'nu'
+
+
 def run_cube(case, ctx):
     from astropy import units as u
     from sedfitter.sed import SEDCube, SED
@@ -255,52 +260,63 @@ def run_cube(case, ctx):
         with must_succeed('SEDCube.write'):
             c.write(path)
         what = 'cube supplied in %s wavelength, unit %s' % ('increasing' if case['supplied'] == 'asc' else 'decreasing', case['unit'])
-        for order in (case['order'], 'wav' if case['order'] == 'nu' else 'nu'):
-            with must_succeed('SEDCube.read(order=%s, memmap=%r)%s' % (order, case['memmap'], '' if case['with_unc'] else ' without uncertainties')):
-                r = SEDCube.read(path, order=order, memmap=case['memmap'])
-            idx = check_spectral(r, case, order, what, 'val', 'unc')
-            if [str(x) for x in r.names] != case['names']:
-                fail('%s: names %r' % (what, list(r.names)), 'c12:cube_names')
-            if r.val.shape != (nm, nap, len(idx)):
-                fail('%s: val shape %r, expected %r' % (what, r.val.shape, (nm, nap, len(idx))), 'c12:cube_shape')
-            vv = np.asarray(r.val.to(un).value)
-            uu = None if r.unc is None else np.asarray(r.unc.to(un).value)
-            if case['with_unc'] != (uu is not None):
-                fail('%s: uncertainties %s' % (what, 'invented' if uu is not None else 'lost'), 'c12:cube_unc_presence')
-            if case['with_ap']:
-                pos = ap_positions(r.apertures.to(u.au).value, case['apertures'][:nap], what, 'c12:cube_apertures')
-                vv = vv[:, pos, :]
-                uu = None if uu is None else uu[:, pos, :]
-            elif r.apertures is not None:
-                fail('%s: apertures appeared: %r' % (what, r.apertures), 'c12:cube_apertures')
-            for m in range(nm):
+        def examine(path, what):
+            # reads the file in both spectral orders and compares every cell, and one extracted model, with what was supplied
+            for order in (case['order'], 'wav' if case['order'] == 'nu' else 'nu'):
+                with must_succeed('SEDCube.read(order=%s, memmap=%r)%s' % (order, case['memmap'], '' if case['with_unc'] else ' without uncertainties')):
+                    r = SEDCube.read(path, order=order, memmap=case['memmap'])
+                idx = check_spectral(r, case, order, what, 'val', 'unc')
+                if [str(x) for x in r.names] != case['names']:
+                    fail('%s: names %r' % (what, list(r.names)), 'c12:cube_names')
+                if r.val.shape != (nm, nap, len(idx)):
+                    fail('%s: val shape %r, expected %r' % (what, r.val.shape, (nm, nap, len(idx))), 'c12:cube_shape')
+                vv = np.asarray(r.val.to(un).value)
+                uu = None if r.unc is None else np.asarray(r.unc.to(un).value)
+                if case['with_unc'] != (uu is not None):
+                    fail('%s: uncertainties %s' % (what, 'invented' if uu is not None else 'lost'), 'c12:cube_unc_presence')
+                if case['with_ap']:
+                    pos = ap_positions(r.apertures.to(u.au).value, case['apertures'][:nap], what, 'c12:cube_apertures')
+                    vv = vv[:, pos, :]
+                    uu = None if uu is None else uu[:, pos, :]
+                elif r.apertures is not None:
+                    fail('%s: apertures appeared: %r' % (what, r.apertures), 'c12:cube_apertures')
+                for m in range(nm):
+                    for a in range(nap):
+                        for p, i in enumerate(idx):
+                            if not close(vv[m][a][p], case['val'][m][a][i]):
+                                fail('%s, read with order=%s: value of %s, aperture %d at %r micron is %r, stored %r' % (
+                                    what, order, case['names'][m], a, case['wav'][i], vv[m][a][p], case['val'][m][a][i]),
+                                    'c12:cube_value_in_wrong_cell')
+                            if uu is not None and not close(uu[m][a][p], case['unc'][m][a][i]):
+                                fail('%s, read with order=%s: uncertainty of %s, aperture %d at %r micron is %r, stored %r' % (
+                                    what, order, case['names'][m], a, case['wav'][i], uu[m][a][p], case['unc'][m][a][i]),
+                                    'c12:cube_unc_in_wrong_cell')
+                # extracting one model gives the SED that was put in
+                m = (len(case['wav']) + nap) % nm
+                with must_succeed('SEDCube.get_sed%s' % ('' if case['with_unc'] else ' without uncertainties')):
+                    s = r.get_sed(case['names'][m])
+                if s.name != case['names'][m]:
+                    fail('get_sed(%r) returned %r' % (case['names'][m], s.name), 'c12:get_sed')
+                sf = np.asarray(s.flux.to(un).value)
+                sw = s.wav.to(u.micron).value
                 for a in range(nap):
                     for p, i in enumerate(idx):
-                        if not close(vv[m][a][p], case['val'][m][a][i]):
-                            fail('%s, read with order=%s: value of %s, aperture %d at %r micron is %r, stored %r' % (
-                                what, order, case['names'][m], a, case['wav'][i], vv[m][a][p], case['val'][m][a][i]),
-                                'c12:cube_value_in_wrong_cell')
-                        if uu is not None and not close(uu[m][a][p], case['unc'][m][a][i]):
-                            fail('%s, read with order=%s: uncertainty of %s, aperture %d at %r micron is %r, stored %r' % (
-                                what, order, case['names'][m], a, case['wav'][i], uu[m][a][p], case['unc'][m][a][i]),
-                                'c12:cube_unc_in_wrong_cell')
-            # extracting one model gives the SED that was put in
-            m = (len(case['wav']) + nap) % nm
-            with must_succeed('SEDCube.get_sed%s' % ('' if case['with_unc'] else ' without uncertainties')):
-                s = r.get_sed(case['names'][m])
-            if s.name != case['names'][m]:
-                fail('get_sed(%r) returned %r' % (case['names'][m], s.name), 'c12:get_sed')
-            sf = np.asarray(s.flux.to(un).value)
-            sw = s.wav.to(u.micron).value
-            for a in range(nap):
-                for p, i in enumerate(idx):
-                    if not close(sw[p], case['wav'][i], 1e-12) or not close(sf[a][p], case['val'][m][a][i]):
-                        fail('%s: get_sed(%s) has %r at %r micron (aperture %d), the model put in has %r at %r' % (
-                            what, case['names'][m], sf[a][p], sw[p], a, case['val'][m][a][i], case['wav'][i]), 'c12:get_sed')
-            if case['with_unc']:
-                se = np.asarray(s.error.to(un).value)
-                if any(not close(se[a][p], case['unc'][m][a][i]) for a in range(nap) for p, i in enumerate(idx)):
-                    fail('%s: get_sed(%s) errors differ from the model put in' % (what, case['names'][m]), 'c12:get_sed')
+                        if not close(sw[p], case['wav'][i], 1e-12) or not close(sf[a][p], case['val'][m][a][i]):
+                            fail('%s: get_sed(%s) has %r at %r micron (aperture %d), the model put in has %r at %r' % (
+                                what, case['names'][m], sf[a][p], sw[p], a, case['val'][m][a][i], case['wav'][i]), 'c12:get_sed')
+                if case['with_unc']:
+                    se = np.asarray(s.error.to(un).value)
+                    if any(not close(se[a][p], case['unc'][m][a][i]) for a in range(nap) for p, i in enumerate(idx)):
+                        fail('%s: get_sed(%s) errors differ from the model put in' % (what, case['names'][m]), 'c12:get_sed')
+            return r
+        r = examine(path, what)
+        # second generation: the cube that was read from the file is written out again (a package copied or re-saved) and
+        # the new file is examined in the same way
+        path2 = os.path.join(d, 'flux_again.fits')
+        with must_succeed('SEDCube.write of a cube that was read from a file (order=%s, memmap=%r)' % (r_order(case), case['memmap'])):
+            r.write(path2)
+        r2 = examine(path2, what + ', read and written again')
+        labels.add('cube_written_again_after_reading')
         # a second cube in the same process holding the same model names at other positions: extraction is by NAME
         if nm >= 2:
             perm = list(range(nm))[::-1] if nm % 2 else list(range(1, nm)) + [0]
